@@ -135,8 +135,8 @@ def stream_events(hex_msgs):
 def run_and_compare(driver, sc, pdesc, workdir, want, model=None, max_steps=400000):
     """want: set of {'completion', 'log', 'streams', 'ops'}.  returns (diffs, result, model)"""
     r = session.run_session(sc, make_policy(pdesc), workdir, max_steps=max_steps)
-    if r.status == 'WATCHDOG':
-        raise common.Infra(f'scheduler watchdog: a thread blocked outside a yield point ({r.deadlock})')
+    # status WATCHDOG = a thread that was given the processor did not reach its next synchronisation step (nor its end)
+    # within the watchdog time: it spins or blocks in the code under test — reported as a failure to complete
     if model is None:
         model = SC.model_session(driver, sc)
     diffs = []
@@ -235,6 +235,8 @@ def campaign(ctx, want, n_sessions, boards_choices=(1, 1, 2, 2, 3), policies_per
                               'schedule': r.schedule, 'diff': d, 'status': r.status})
             if done >= n_sessions:
                 break
+            if len(fails) > 6 or any(f.get('status') == 'WATCHDOG' for f in fails):
+                return fails             # enough to report; a stuck thread costs the whole watchdog time per session
         if independent_log and len(set(logs)) > 1:
             fails.append({'key': 'log-depends-on-schedule', 'kind': 'counterexample', 'scenario': sc,
                           'policy': 'several', 'diff': {'what': 'log-depends-on-schedule', 'n_distinct': len(set(logs))}})
